@@ -22,7 +22,8 @@ RULE = ("fault space = objects (small containers, 9 KB string, random bytes, nes
         "payload) x compressors (none, zlib 1/9, gzip, bz2, lzma, xz) x protocols 0/2/4/5 x damage: every truncation "
         "length when the file is <= 4 KiB (thorough) / <= 600 B (quick), else all lengths within 64 bytes of 0, of 8 KiB "
         "multiples and of the end plus a seeded sample; suffixes {1 zero byte, random bytes, the stream itself, another "
-        "valid stream}; loaded from a file object and from a path; same damage to Memory's output.pkl; one evaluation = "
+        "valid stream}; loaded from a file object and from a path; same damage to Memory's output.pkl (combined with an "
+        "intact / missing / empty / truncated metadata.json, with and without mmap_mode); one evaluation = "
         "one damaged load; distinct = (object, compressor, protocol, damage); non-trivial = the damage point lies inside "
         "the compressed body / pickle stream (not at offset 0)")
 REAL_CODE = ["joblib.numpy_pickle.load/_unpickle", "joblib.numpy_pickle_utils (_detect_compressor, _read_fileobject)",
@@ -105,8 +106,9 @@ def plan(tier, seed):
     # Memory entries
     for comp in (False, True, 3):
         for pad in (0, 9000):
-            yield {"memory": True, "compress": comp, "pad": pad, "seed": rng.randrange(1 << 30),
-                   "n_trunc": 40 if tier == "quick" else 400}
+            for mmap in (False, True):
+                yield {"memory": True, "compress": comp, "pad": pad, "seed": rng.randrange(1 << 30), "mmap": mmap,
+                       "n_trunc": 40 if tier == "quick" else 400}
 
 
 class Budget(BaseException):
@@ -210,12 +212,14 @@ def run_memory_case(case):
     try:
         simfs.write_module(root, 1)
         vmod = simfs.load_module(root)
-        mem = Memory(os.path.join(root, "cache"), verbose=0, compress=case["compress"])
+        mem = Memory(os.path.join(root, "cache"), verbose=0, compress=case["compress"], mmap_mode="r" if case.get("mmap") else None)
         c = mem.cache(vmod.f)
         want = simfs.expected(1, "f", (1, case["pad"]))
         assert c(1, case["pad"]) == want
         path = os.path.join(mem.store_backend.location, c.func_id, c._get_args_id(1, case["pad"]), "output.pkl")
         good = open(path, "rb").read()
+        mpath = os.path.join(os.path.dirname(path), "metadata.json")
+        good_meta = open(mpath, "rb").read()
         L = len(good)
         cuts = sorted(set(range(min(L, 64))) | set(range(max(0, L - 64), L)) | set(rng.sample(range(L), min(L, case["n_trunc"]))))
         dams = [["trunc", k] for k in cuts] + [["ext", s] for s in ("zero", "rnd", "self")]
@@ -224,12 +228,21 @@ def run_memory_case(case):
         for dmg in dams:
             with open(path, "wb") as fh:
                 fh.write(damaged(good, dmg, good))
+            # an interrupted copy / full disk damages the entry's other file as well: every third damage comes with a
+            # missing, every third with an empty or truncated metadata.json
+            mk = ("intact", "missing", "empty", "intact", "truncated", "intact")[n % 6]
+            if mk == "missing":
+                os.unlink(mpath)
+            elif mk != "intact":
+                with open(mpath, "wb") as fh:
+                    fh.write(b"" if mk == "empty" else good_meta[:len(good_meta) // 2])
             n += 1
             n0 = len(vmod.CALLS)
             r, _ = load_budgeted(lambda: c(1, case["pad"]), budget)
             h.update(("%s:%s;" % (dmg, r[0])).encode())
             if verdict is None:
-                where = "Memory entry with output.pkl %s %s (%d bytes, compress=%s)" % (dmg[0], dmg[1], L, case["compress"])
+                where = "Memory entry with output.pkl %s %s (%d bytes, compress=%s, metadata.json %s, mmap=%s)" % (
+                    dmg[0], dmg[1], L, case["compress"], mk, bool(case.get("mmap")))
                 if r[0] == "HANG":
                     verdict = {"class": "load_does_not_terminate", "detail": "%s: %s" % (where, r[1]),
                                "sig": {"what": "load_does_not_terminate", "compressor": "memory:%s" % case["compress"], "damage": dmg[0]}}
@@ -240,8 +253,11 @@ def run_memory_case(case):
                     verdict = {"class": "memory_returns_garbage", "detail": "%s: cached call returned %s" % (where, repr(r[1])[:100]),
                                "sig": {"what": "memory_returns_garbage"}}
             # restore a good entry for the next damage
+            os.makedirs(os.path.dirname(path), exist_ok=True)
             with open(path, "wb") as fh:
                 fh.write(good)
+            with open(mpath, "wb") as fh:
+                fh.write(good_meta)
         return {"verdict": verdict, "digest": h.hexdigest()[:24], "shape": None, "evals": n,
                 "shapes": [("memory|%s|%s|%s%s" % (case["compress"], case["pad"], d[0], d[1]), True) for d in dams],
                 "steps": n, "switches": 0, "sim_time": 0.0, "faults": {"damaged_cache_entry": n}, "probes": {"damaged_loads": n},
